@@ -86,7 +86,76 @@ def check_stream(case, seq, ns, data, delimited) -> list[tuple[str, str]]:
     return fails
 
 
+SLOT_SIZES = ((4096, 4), (4096, 4096), (8, 4096), (4095, 3), (128, 127), (4000, 150))
+
+
+def slots_stream(names: int, prefixes: int):
+    """A valid stream that uses the first and the last slots of both tables in every
+    combination, with explicit ids (what a producer other than pyjelly may do)."""
+    pids = sorted({1, 2, 3 if prefixes >= 3 else 1, prefixes - 1, prefixes})
+    nids = sorted({1, 2, names - 1, names})
+    opts = {"physical_type": 1, "max_name_table_size": names, "max_prefix_table_size": prefixes,
+            "version": 1}
+    rows = [jwire.mkrow("options", opts)]
+    rows += [jwire.mkrow("prefix", {"id": i, "value": f"http://p{i}/"}) for i in pids]
+    rows += [jwire.mkrow("name", {"id": i, "value": f"n{i}"}) for i in nids]
+    expect = []
+    for k, (p, n) in enumerate((p, n) for p in pids for n in nids):
+        rows.append(jwire.mkrow("triple", {"s": ("iri", p, n), "p": ("iri", p, n),
+                                           "o": ("literal", str(k), None, None)}))
+        iri = ("I", f"http://p{p}/n{n}")
+        expect.append((iri, iri, ("L", str(k), None, None)))
+    # the same once more in reverse order (every entry is hit a second time)
+    for k, (p, n) in enumerate((p, n) for p in reversed(pids) for n in reversed(nids)):
+        rows.append(jwire.mkrow("triple", {"s": ("iri", p, n), "p": ("bnode", "b"),
+                                           "o": ("iri", p, n)}))
+        iri = ("I", f"http://p{p}/n{n}")
+        expect.append((iri, ("B", "b"), iri))
+    return jwire.write_delimited([jwire.enc_frame(rows)]), expect
+
+
+def run_slots(case: dict) -> list[tuple[str, str]]:
+    data, expect = slots_stream(*case["slots"])
+    _, per = jspec.decode_frames(jwire.read_delimited(data))
+    if [T.norm_st(s) for s in jspec.statements(per)] != expect:
+        raise HarnessError(f"slots stream {case} does not denote what it should")
+    fails = []
+    for api, reader in parsers(True):
+        try:
+            evs = DR.g_read(data, reader) if api == "generic" else DR.r_read(data, reader)
+        except Exception as e:  # noqa: BLE001
+            fails.append((f"{api}.{reader}", f"valid stream (tables {case['slots']}, first and last "
+                                             f"slots in use) refused by {api} {reader}: "
+                                             f"{type(e).__name__}: {e}"))
+            continue
+        got = DR.stmts_of(evs)
+        ok = set(got) == set(expect) if (api == "rdflib" and reader != "flat") else got == expect
+        if not ok:
+            bad = next((i for i, (a, b) in enumerate(zip(got, expect)) if a != b), None)
+            fails.append((f"{api}.{reader}", f"tables {case['slots']}: {api} {reader} returns "
+                                             f"{got[bad] if bad is not None else len(got)} where "
+                                             f"the stream denotes "
+                                             f"{expect[bad] if bad is not None else len(expect)}"))
+    return fails
+
+
+def slots_shard(job) -> dict:
+    acc = pool.Acc()
+    DR.ensure_rdflib_plugin()
+    for sz in SLOT_SIZES:
+        case = {"slots": list(sz)}
+        acc.evals += 1
+        acc.nontrivial += 1
+        for where, msg in run_slots(case):
+            acc.violation({"parser": where, "deviations": "extreme-slots"}, f"{msg}; case={case}",
+                          case)
+    acc.extra = {"kinds": {"extreme-slots": len(SLOT_SIZES)}, "nodes": 0}
+    return acc.out()
+
+
 def shard(job) -> dict:
+    if job[0] == "slots":
+        return slots_shard(job)
     scope, cls, si, ns, L, lo, hi, bound = job
     acc = pool.Acc()
     sizes = SIZES[si]
@@ -149,6 +218,7 @@ def run(ctx) -> None:
                         continue
                     for lo, hi in pool.split_range(n, 1 if ctx.quick else 6):
                         jobs.append((scope, cls, si, ns, L, lo, hi, bound))
+    jobs.append(("slots",))
     merged = pool.merge(pool.pmap(shard, jobs))
     ctx.add(merged)
     kinds: dict = {}
@@ -181,5 +251,8 @@ def run(ctx) -> None:
 
 
 def replay(case: dict) -> list:
+    if "slots" in case:
+        DR.ensure_rdflib_plugin()
+        return [m for _, m in run_slots(case)]
     ch, seq, ns, data, delimited = build(case, choice.Chooser(case["choices"]))
     return [m for _, m in check_stream(case, seq, ns, data, delimited)]
